@@ -15,6 +15,16 @@ Laws
           user category (subclass of jaxtyping.AbstractDtype) whose dtype-name list
           is computed by refs/dtypes_c15 from the documented hierarchy.
   nest3   the same, three levels deep.
+          Both also run over the 'names' family: categories whose dtype NAMES collide
+          under any comparison other than string equality -- the five exported
+          Float8* precision classes (float8_e5m2 is a prefix of float8_e5m2fnuz,
+          float8_e4m3fn of float8_e4m3fnuz) with the general categories around them,
+          and user categories listing plain names that are prefixes / suffixes / case
+          variants / regex-special variants of one another (refs/dtypes_c15.NAMES),
+          plus make_numpy_struct_dtype categories; probed with Duck arrays of every
+          such name and its neighbours, real ml_dtypes fp8 arrays and real struct
+          arrays.  In every nest instance a probe whose dtype name is outside D1 n D2
+          must be rejected outright (independent of the right-hand side).
   union   D[Union[m1..mk], s] == Union[D[m1,s], .., D[mk,s]] (also m1 | m2); scalar
           members survive per the scalar rule; ValueError iff nothing survives or a
           member's own annotation is a ValueError.
@@ -48,6 +58,17 @@ DUCK_DTYPES_QUICK = ["bool", "key", "uint8", "int8", "int32", "float32", "bfloat
 NP_DTYPES = ["bool", "uint8", "int8", "int32", "float32", "float64", "complex64"]
 ARRS = ["Duck", "ndarray", "Any"]
 SCALARS = ["bool", "int", "float", "complex", "np.bool_", "np.number"]
+
+# the 'names' family of the nesting laws (see the module docstring)
+FP8_CATS_QUICK = list(rd.FLOAT8) + ["Shaped", "Float", "Real", "Float32", "Int"]
+FP8_CATS = list(rd.FLOAT8) + ["Shaped", "Num", "Inexact", "Real", "Float", "Float32", "BFloat16", "Int"]
+UNAME_CATS = rd.NAME_CATS + ["Shaped", "Int8", "Int", "Float32", "Float"]
+DIMS_NAMES = [("a", "b"), ("", "2"), ("*v", "a"), ("... a", "*v")]  # (s1, s2); the last one is the two-multi-axis error
+NAME_SHAPES = [(), (2,), (3,), (2, 2), (2, 3), (3, 2), (3, 1, 2)]
+CATS3_NAMES_QUICK = ["names:i8", "names:i8x", "names:i8+i8x", "names:plus", rd.NAME_CATS_ALL, "Shaped", "Float8e5m2", "Float8e5m2fnuz", "Float"]
+CATS3_NAMES = CATS3_NAMES_QUICK + ["names:f32", "names:fdot", "names:brack", "struct:f", "Float8e4m3fn", "Float8e4m3fnuz", "Int8"]
+DIMS3_NAMES = [("a", "b", "2"), ("*v", "", "a")]  # (s1, s2, s3)
+NAME_DTYPES = list(rd.NAMES.values()) + rd.NAME_NEIGHBOURS + list(rd.FLOAT8.values()) + ["float32", "bfloat16", "int16", "my_dtype"]
 
 UNION_MEMBERS = [
     ["ndarray", "Duck"],
@@ -90,6 +111,22 @@ def _multi(s):
     return any(rdims.is_multi(a) for a in _axes(s))
 
 
+def real_fp8():
+    """[(dtype name, numpy dtype)] of the exported fp8 precisions that ml_dtypes provides
+    here (real arrays of them are probed next to the Duck arrays); [] without ml_dtypes."""
+    try:
+        import ml_dtypes
+        import numpy as np
+    except Exception:  # noqa: BLE001
+        return []
+    out = []
+    for name in rd.FLOAT8.values():
+        t = getattr(ml_dtypes, name, None)
+        if t is not None and np.dtype(t).type.__name__ == name:
+            out.append((name, np.dtype(t)))
+    return out
+
+
 # --------------------------------------------------------------------- environment
 
 
@@ -122,6 +159,35 @@ class Env:
             "Any": self.duck_vals + self.np_vals + self.scalar_vals,
         }
         self.seq_vals = [Duck(sh, "float32") for sh in SEQ_SHAPES] + [np.zeros(sh, np.float32) for sh in SEQ_SHAPES[:5]]
+        # dtype name every array probe presents (by construction), for the outright-reject oracle
+        self.dtname = {}
+        for v in self.duck_vals + few_duck:
+            self.dtname[id(v)] = v.dtype
+        for i, v in enumerate(self.np_vals):
+            self.dtname[id(v)] = rd.concrete(NP_DTYPES[i // len(SHAPES)])
+        for v in few_np:
+            self.dtname[id(v)] = v.dtype.name
+        # probe sets of the 'names' family
+        struct_names = [rd.struct_name(i) for i in rd.STRUCTS]
+        n_duck = [Duck(sh, dt) for dt in NAME_DTYPES + struct_names for sh in NAME_SHAPES]
+        n_np = []
+        for name, dt in [(n, d) for n, d in real_fp8()] + [(rd.struct_name(i), np.dtype(f)) for i, f in rd.STRUCTS.items()] + [("float32", np.float32), ("int8", np.int8)]:
+            for sh in NAME_SHAPES:
+                v = np.zeros(sh, dt)
+                n_np.append(v)
+                self.dtname[id(v)] = name
+        for v in n_duck:
+            self.dtname[id(v)] = v.dtype
+        n_few_duck = [Duck(sh, dt) for dt in ("float8_e5m2", "float8_e5m2fnuz", "int8", "int8x") for sh in ((2,), (2, 3))]
+        for v in n_few_duck:
+            self.dtname[id(v)] = v.dtype
+        n_few_np = [v for v in n_np if v.shape in ((2,), (2, 3))]
+        self.vals.update({
+            "Duck:names": n_duck + n_few_np + self.scalar_vals,
+            "ndarray:names": n_np + n_few_duck + self.scalar_vals,
+            "Any:names": n_duck + n_np + self.scalar_vals,
+        })
+        self.reject_cache = {}
         self.fresh = {}
         self.vec_cache = {}
         self.builds = 0
@@ -134,6 +200,17 @@ class Env:
 
                 entries = [re.compile(e[3:]) if e.startswith("re:") else e for e in rd.USER_CATS[name][0]]
                 self.fresh[name] = type(self.jt.AbstractDtype)("U" + name[5:], (self.jt.AbstractDtype,), dict(dtypes=entries if len(entries) > 1 else entries[0]))
+            return self.fresh[name]
+        if name.startswith("names:"):
+            # a user category listing plain names (a single name is spelled as a bare string)
+            if name not in self.fresh:
+                ids = list(rd.NAMES) if name == rd.NAME_CATS_ALL else name[6:].split("+")
+                entries = [rd.NAMES[i] for i in ids]
+                self.fresh[name] = type(self.jt.AbstractDtype)("N_" + "_".join(ids if len(ids) < 5 else ["ALL"]), (self.jt.AbstractDtype,), dict(dtypes=entries if len(entries) > 1 else entries[0]))
+            return self.fresh[name]
+        if name.startswith("struct:"):
+            if name not in self.fresh:
+                self.fresh[name] = self.jt.make_numpy_struct_dtype(self.np.dtype(rd.STRUCTS[name[7:]]), "Struct_" + name[7:])
             return self.fresh[name]
         return getattr(self.jt, name)
 
@@ -190,6 +267,20 @@ class Env:
             out["sequel"] = self.prober.sequel(ann, self.seq_vals)
         return out
 
+    def must_reject(self, inter, valkey):
+        """Indices of the array probes whose dtype name is outside the reference
+        intersection: whatever their class and shape, the nested annotation must
+        reject them."""
+        key = (inter, valkey)
+        if key not in self.reject_cache:
+            if inter == rd.ANY:
+                idx = ()
+            else:
+                allowed = {rd.concrete(d) for d in inter}
+                idx = tuple(i for i, v in enumerate(self.vals[valkey]) if id(v) in self.dtname and self.dtname[id(v)] not in allowed)
+            self.reject_cache[key] = idx
+        return self.reject_cache[key]
+
     def describe_diff(self, v1, v2, valkey):
         for c in v1:
             if v1[c] != v2[c]:
@@ -207,10 +298,11 @@ def _nontrivial(vecs):
     return True in flat and False in flat
 
 
-def compare(env, lhs, rhs_list, valkey, expect_error):
+def compare(env, lhs, rhs_list, valkey, expect_error, reject=(), sequel=True):
     """lhs / rhs: ('ann', obj) | ('ValueError', ..) | ('other', ..).  rhs_list: the
     admissible right-hand sides (more than one only in a don't-care zone; a
     ('ValueError', ..) entry means that a ValueError is admissible too).
+    reject: indices of probes the left side must reject in every context.
     -> (problem or None, nontrivial: bool)"""
     if lhs[0] == "other":
         return f"building the left side raised {lhs[1]}", True
@@ -228,12 +320,17 @@ def compare(env, lhs, rhs_list, valkey, expect_error):
     rhs_anns = [r for r in rhs_list if r[0] == "ann"]
     if not rhs_anns:
         return "the left side was built although the right side is a ValueError", True
-    lv = env.vectors(lhs[1], valkey)
+    lv = env.vectors(lhs[1], valkey, sequel)
+    for c, v in lv.items():
+        if c != "sequel":
+            for i in reject:
+                if v[i] is True:
+                    return f"context {c}: accepts probe {env.vals[valkey][i]!r} whose dtype is outside the intersection of the two categories", True
     diff = None
     for r in rhs_anns:
-        key = (id(r[1]), valkey)
+        key = (id(r[1]), valkey, sequel)
         if key not in env.vec_cache:
-            env.vec_cache[key] = (r[1], env.vectors(r[1], valkey))
+            env.vec_cache[key] = (r[1], env.vectors(r[1], valkey, sequel))
         rv = env.vec_cache[key][1]
         d = env.describe_diff(lv, rv, valkey)
         if d is None:
@@ -245,33 +342,45 @@ def compare(env, lhs, rhs_list, valkey, expect_error):
 # ----------------------------------------------------------------------- the laws
 
 
-def law_nest(env, A, s1, s2, d1, d2):
+def _valkey(A, probes):
+    """probes: 'std' (documented universe) | 'names' (colliding dtype names; no sequel
+    vector, the binding behaviour does not depend on the dtype names)."""
+    if probes == "std":
+        return A, True
+    if probes == "names":
+        return A + ":names", False
+    raise common.HarnessError(f"unknown probe family {probes!r}")
+
+
+def law_nest(env, A, s1, s2, d1, d2, probes="std"):
     a = env.atom(A)
+    valkey, sequel = _valkey(A, probes)
     D1, D2 = env.cat(d1), env.cat(d2)
     lhs = env.build(lambda: D2[D1[a, s1], s2])
     inter = rd.intersect(rd.members(d1), rd.members(d2))
     err = (inter != rd.ANY and len(inter) == 0) or (_multi(s1) and _multi(s2))
     if err:
-        return compare(env, lhs, [], A, True)
+        return compare(env, lhs, [], valkey, True)
     X = env.fresh_cat(inter)
     key = ("nest", inter, A, s1, s2)
     if key not in env.vec_cache:
         env.vec_cache[key] = env.build(lambda: X[a, (s2 + " " + s1).strip()])
-    return compare(env, lhs, [env.vec_cache[key]], A, False)
+    return compare(env, lhs, [env.vec_cache[key]], valkey, False, env.must_reject(inter, valkey), sequel)
 
 
-def law_nest3(env, A, s1, s2, s3, d1, d2, d3):
+def law_nest3(env, A, s1, s2, s3, d1, d2, d3, probes="std"):
     a = env.atom(A)
+    valkey, sequel = _valkey(A, probes)
     lhs = env.build(lambda: env.cat(d3)[env.cat(d2)[env.cat(d1)[a, s1], s2], s3])
     inter = rd.intersect(rd.members(d1), rd.members(d2), rd.members(d3))
     err = (inter != rd.ANY and len(inter) == 0) or sum(map(_multi, (s1, s2, s3))) > 1
     if err:
-        return compare(env, lhs, [], A, True)
+        return compare(env, lhs, [], valkey, True)
     X = env.fresh_cat(inter)
     key = ("nest3", inter, A, s1, s2, s3)
     if key not in env.vec_cache:
         env.vec_cache[key] = env.build(lambda: X[a, " ".join(x for x in (s3, s2, s1) if x)])
-    return compare(env, lhs, [env.vec_cache[key]], A, False)
+    return compare(env, lhs, [env.vec_cache[key]], valkey, False, env.must_reject(inter, valkey), sequel)
 
 
 def _union_rhs(env, d, members, s):
@@ -382,11 +491,11 @@ LAWS = dict(nest=law_nest, nest3=law_nest3, union=law_union, typevar=law_typevar
 
 def instance_key(kind, p):
     if kind == "nest":
-        A, s1, s2, d1, d2 = p
-        return f"C15:nest:{d2}[{d1}[{A},{s1!r}],{s2!r}]"
+        A, s1, s2, d1, d2, *fam = p
+        return f"C15:nest:{d2}[{d1}[{A},{s1!r}],{s2!r}]" + "".join("@" + f for f in fam)
     if kind == "nest3":
-        A, s1, s2, s3, d1, d2, d3 = p
-        return f"C15:nest3:{d3}[{d2}[{d1}[{A},{s1!r}],{s2!r}],{s3!r}]"
+        A, s1, s2, s3, d1, d2, d3, *fam = p
+        return f"C15:nest3:{d3}[{d2}[{d1}[{A},{s1!r}],{s2!r}],{s3!r}]" + "".join("@" + f for f in fam)
     if kind == "union":
         d, mi, s, sp = p
         return f"C15:union:{d}[{sp}[{','.join(UNION_MEMBERS[mi])}],{s!r}]"
@@ -413,6 +522,15 @@ def space(tier):
         n3 = [x for x in n3 if x[1][0] == "Duck" and x[1][6] != "Num"]
     for i in range(0, len(n3), 512):
         groups.append(n3[i : i + 512])
+    # the 'names' family: all ordered pairs within each of its two category lists
+    for cl in (FP8_CATS_QUICK if quick else FP8_CATS, UNAME_CATS):
+        for A in ARRS:
+            for s1, s2 in DIMS_NAMES:
+                groups.append([("nest", (A, s1, s2, d1, d2, "names")) for d1 in cl for d2 in cl])
+    c3 = CATS3_NAMES_QUICK if quick else CATS3_NAMES
+    n3n = [("nest3", (A, s1, s2, s3, d1, d2, d3, "names")) for A in (("Duck",) if quick else ("Duck", "Any")) for s1, s2, s3 in DIMS3_NAMES for d1 in c3 for d2 in c3 for d3 in c3]
+    for i in range(0, len(n3n), 512):
+        groups.append(n3n[i : i + 512])
     un = [("union", (d, mi, s, sp)) for d in cats for mi in range(len(UNION_MEMBERS)) for s in DIMS_SCALAR for sp in ("Union", "|")]
     tv = [("typevar", (d, ti, s)) for d in cats for ti in range(len(TYPEVARS)) for s in DIMS_SCALAR]
     sc = [("scalar", (d, t, s)) for d in rd.CATS16 + list(rd.USER_CATS) for t in SCALARS for s in DIMS_SCALAR]
@@ -431,7 +549,8 @@ def _run_group(job):
     for kind, p in job["items"]:
         prob, nontriv = LAWS[kind](env, *p)
         stats["instances"] += 1
-        per[kind] = per.get(kind, 0) + 1
+        fam = kind + "@names" if kind in ("nest", "nest3") and p[-1] == "names" else kind
+        per[fam] = per.get(fam, 0) + 1
         if nontriv:
             stats["nontrivial"] += 1
         if prob is not None and len(viols) < 60:
@@ -559,6 +678,9 @@ def run(ctx):
     per["alias"] = a_cases
     samples = list(samples.values()) + a_samples[:2]
     viols.sort(key=lambda v: (len(v.key), v.key))
+    fp8 = FP8_CATS_QUICK if ctx.quick else FP8_CATS
+    c3 = CATS3_NAMES_QUICK if ctx.quick else CATS3_NAMES
+    fp8_real = real_fp8()
     cov = dict(
         evaluations=stats["checks"] + stats["builds"] + a_eval,
         law_instances=stats["instances"] + a_cases,
@@ -577,19 +699,39 @@ def run(ctx):
         + " categories (all ordered pairs) x 8x8 dim strings x {Duck, np.ndarray, Any}; 3-level nesting over 4 categories x 4 dim strings; "
         "11 unions x 2 spellings, 12 TypeVars, 6 scalar types x 10 dim strings x categories; 7 alias laws; probes: Duck x "
         + str(1 + len(DUCK_DTYPES_QUICK if ctx.quick else rd.UNIVERSE))
-        + " dtype names x 15 shapes, ndarray x 7 dtypes x 15 shapes, 13 scalars/non-arrays, 3 contexts + sequel",
+        + " dtype names x 15 shapes, ndarray x 7 dtypes x 15 shapes, 13 scalars/non-arrays, 3 contexts + sequel; "
+        "'names' family (colliding dtype names) of the nesting laws: all ordered pairs of "
+        + str(len(fp8))
+        + " categories around the 5 exported Float8* classes and of "
+        + str(len(UNAME_CATS))
+        + f" categories around {len(rd.NAME_CATS)} user/struct categories over {len(rd.NAMES)} colliding plain names x {len(DIMS_NAMES)} dim-string pairs x 3 array types, "
+        + f"all ordered triples of {len(c3)} such categories x {len(DIMS3_NAMES)} dim-string triples; probes: Duck x {len(NAME_DTYPES) + len(rd.STRUCTS)} dtype names x {len(NAME_SHAPES)} shapes, "
+        + f"real ndarray x {len(fp8_real)} ml_dtypes fp8 dtypes + {len(rd.STRUCTS)} struct dtypes + 2 x {len(NAME_SHAPES)} shapes, 3 contexts; outright-reject oracle on every built nest instance",
+        names_family=dict(
+            fp8_categories=fp8,
+            user_name_categories=UNAME_CATS,
+            colliding_names=list(rd.NAMES.values()),
+            neighbour_probe_names=rd.NAME_NEIGHBOURS,
+            real_fp8_array_dtypes=[n for n, _ in fp8_real],
+            depth3_categories=c3,
+            nest_instances=per.get("nest@names", 0),
+            nest3_instances=per.get("nest3@names", 0),
+        ),
     )
     return Result(
         level="exploration",
         coverage=cov,
         violations=viols,
         assumptions=[
-            "refs/dtypes_c15 is the reading of the documented dtype hierarchy (universe = dtypes the docs name)",
+            "refs/dtypes_c15 is the reading of the documented dtype hierarchy (universe = dtypes the docs name + the five exported fp8 precisions)",
+            "a user category listing plain dtype names contains exactly those names, compared by string equality (AbstractDtype docstring: 'an exact match is required')",
             "a fresh AbstractDtype subclass with a list of dtype names accepts exactly those names (documented extension point)",
             "a Union of annotations accepts what its first accepting member accepts (members tried in order), as runtime type checkers read it",
         ],
         notes=[
-            "don't-care: Python scalars in precision-specific categories; np.number outside Shaped/Num; dtypes outside the documented universe are not probed in nesting laws except 'my_dtype'",
+            "don't-care: Python scalars in precision-specific categories; np.number outside Shaped/Num; dtypes outside the documented universe are not probed in nesting laws except 'my_dtype' "
+            "and, in the 'names' family, names that are no dtype of any library (user names and their neighbours)",
+            "the five exported Float8* classes are read as precision classes below Float / Inexact / Real / Num (docs/api/array.md does not list them)",
         ],
     )
 
